@@ -236,8 +236,7 @@ func asciiViolation(code string, family string) int {
 	return asciiOnly(code)
 }
 
-func runLiterals(r *core.Run, cfgs []config) {
-	cases := genLiterals(r)
+func runLiterals(r *core.Run, cases []litCase, cfgs []config) {
 	r.Logf("TLC exported %d literal cases", len(cases))
 	if len(cases) == 0 {
 		return
